@@ -318,3 +318,76 @@ pub fn preimages_of_special(ex: &Extracted, w: usize, seed: u64) -> Vec<BitVec> 
         })
         .collect()
 }
+
+// ------------------------------------------------------------------------------------------------
+// jump polynomial and its prefixes
+// ------------------------------------------------------------------------------------------------
+
+/// Coefficients p_0..p_{n-1} with sum p_i T^i = tk (= T^(2^k)): the jump polynomial x^(2^k) mod charpoly(T),
+/// obtained by solving [e, Te, T^2 e, ...] p = T^(2^k) e for a cyclic vector e (None if e is not cyclic,
+/// i.e. T does not have a primitive characteristic polynomial).
+pub fn jump_polynomial(t: &Mat, tk: &Mat) -> Option<BitVec> {
+    let n = t.cols;
+    let e = BitVec::unit(n, 0);
+    let mut cols = Vec::with_capacity(n);
+    let mut v = e.clone();
+    for _ in 0..n {
+        cols.push(v.clone());
+        v = t.apply(&v);
+    }
+    let vm = Mat { rows: n, cols: n, col: cols };
+    let rhs = tk.apply(&e);
+    let p = vm.solve(&rhs)?;
+    // check on a second vector
+    let f = BitVec::unit(n, n / 2 + 1);
+    let mut acc = BitVec::zero(n);
+    let mut w = f.clone();
+    for i in 0..n {
+        if p.get(i) {
+            acc.xor_assign(&w);
+        }
+        w = t.apply(&w);
+    }
+    if acc != tk.apply(&f) {
+        return None;
+    }
+    Some(p)
+}
+
+/// A·T for a (sparse) T: column j of the product is the xor of the columns of A selected by column j of T.
+fn mul_right_sparse(a: &Mat, t: &Mat) -> Mat {
+    let n = t.cols;
+    let mut out = Vec::with_capacity(n);
+    for j in 0..n {
+        let mut c = BitVec::zero(a.rows);
+        for (wi, &word) in t.col[j].w.iter().enumerate() {
+            let mut x = word;
+            while x != 0 {
+                let b = x.trailing_zeros() as usize;
+                x &= x - 1;
+                let r = wi * 64 + b;
+                if r < a.cols {
+                    c.xor_assign(&a.col[r]);
+                }
+            }
+        }
+        out.push(c);
+    }
+    Mat { rows: a.rows, cols: n, col: out }
+}
+
+/// q_m(T) = sum over i < m with p_i set of T^i (the accumulator of a jump loop after m polynomial bits).
+pub fn prefix_polynomial_matrix(t: &Mat, p: &BitVec, m: usize) -> Mat {
+    let n = t.cols;
+    let mut a = Mat::zero(n, n);
+    for i in (0..m).rev() {
+        a = mul_right_sparse(&a, t);
+        if p.get(i) {
+            for d in 0..n {
+                let cur = a.col[d].get(d);
+                a.col[d].set(d, !cur);
+            }
+        }
+    }
+    a
+}
